@@ -373,9 +373,29 @@ Definition locate_spec (allowed : obj -> bool) (objs : list obj) (fs : list afil
                        (off mx : option Z) : list Z :=
   map o_uid (slice off mx (spec_objs allowed objs fs)).
 
+(* ------------------------------------------------------------------ optional version gate
+   Proposed repair fixes/C16-locate-attr-gate (not in /repo today): before the object loop, a filter
+   naming an attribute the request's protocol version does not have (policy.is_attribute_supported:
+   known name and version >= version_added) is refused with InvalidField.  The harness detects in
+   the source whether _process_locate calls is_attribute_supported and sets `gate` accordingly, so
+   the correspondence follows the code in either state.  The theorems are about locate_model, i.e.
+   about requests that pass the gate. *)
+Definition ver_ge (a b : Z * Z) : bool :=
+  (fst b <? fst a) || ((fst a =? fst b) && (snd b <=? snd a)).
+
+Definition attribute_supported (ver : Z * Z) (name : string) : bool :=
+  match find_rule name with
+  | None => false
+  | Some r => ver_ge ver (ar_version_added r)
+  end.
+
+Definition passes_gate (gate : bool) (ver : Z * Z) (fs : list afilter) : bool :=
+  negb gate || forallb (fun f => attribute_supported ver (filter_name f)) fs.
+
 (* ------------------------------------------------------------------ comparator (tie K) *)
 
 Record kcase := mkCase {
+  k_gate : bool; k_ver : Z * Z;
   k_pols : policies; k_req : requester; k_objs : list obj; k_fs : list afilter;
   k_off : option Z; k_max : option Z;
   k_obs : option (list Z)        (* identifiers the implementation answered, in order; None = the item failed *)
@@ -392,6 +412,9 @@ Definition model_of_case (c : kcase) : res (list Z) :=
   locate_model (allowed_of (k_pols c) (k_req c)) (k_objs c) (k_fs c) (k_off c) (k_max c).
 
 Definition check_case (c : kcase) : bool :=
+  if negb (passes_gate (k_gate c) (k_ver c) (k_fs c)) then
+    match k_obs c with None => true | Some _ => false end
+  else
   match model_of_case c, k_obs c with
   | Ok l, Some l' => list_eqbZ l l'
   | TooMany, None => true
